@@ -186,6 +186,20 @@ func init() {
 					okRefuse = false
 				}
 			}
+			// The split of the symbol, the keyword test and the package lookup may live in a RESOLVER that
+			// PutGlobal shares with GetGlobal: `table, key, lerr := env.globalTarget(k)`.  The argument is
+			// then made in two halves.  Inside the resolver: the edge `namespace == ""` returns no package
+			// (nil in the package position), and every return that does hand back a package is either behind
+			// `namespace != ""` or hands back the current package (the unqualified path).  In PutGlobal: the
+			// edge `<package result> == nil` returns an error, and Package.Put on that result is reachable
+			// only where it is not nil.
+			if len(empty) == 0 {
+				if ok, put := keywordRefusedViaResolver(c, u, fc, pput); ok {
+					obs = append(obs, mkOb(c, "PKG.keyword-refused", u, "empty namespace refused", fd, Proved, "the resolver answers a keyword with no package, and PutGlobal refuses when it gets none", true))
+					obs = append(obs, mkOb(c, "PKG.keyword-refused", u, "qualified binding", put, Proved, "Package.Put runs on the resolver's package only where it is not nil; the resolver hands back a looked-up package only behind namespace != \"\"", true))
+					return obs
+				}
+			}
 			if okRefuse {
 				obs = append(obs, mkOb(c, "PKG.keyword-refused", u, "empty namespace refused", fd, Proved, "the edge `namespace == \"\"` returns an error", true))
 			} else {
@@ -897,4 +911,115 @@ func init() {
 			}
 			return obs
 		}})
+}
+
+
+// keywordRefusedViaResolver: see PKG.keyword-refused.
+func keywordRefusedViaResolver(c *Ctx, u FuncUnit, fc *FCFG, pput *types.Func) (bool, ast.Node) {
+	info := u.Pkg.TypesInfo
+	body := u.Decl.Body
+	// the Put whose receiver is a local that is a result of a same-package helper
+	for _, lc := range fc.findCalls(pput) {
+		se, ok := ast.Unparen(lc.Call.Fun).(*ast.SelectorExpr)
+		if !ok {
+			continue
+		}
+		table := identObj(info, se.X)
+		if table == nil {
+			continue
+		}
+		dc, idx, ndef := definingCall(info, body, table)
+		if dc == nil || ndef != 1 {
+			continue
+		}
+		h := originOf(Callee(info, dc))
+		hd := c.declOf[h]
+		if h == nil || hd == nil || hd.Body == nil || h.Pkg() != u.Obj.Pkg() {
+			continue
+		}
+		// caller half: table == nil returns an error; Put only where table != nil
+		nilEdges := fc.nilEdges(table, true) // edges on which table == nil
+		if len(nilEdges) == 0 {
+			continue
+		}
+		callerOK := true
+		for _, e := range nilEdges {
+			succ := e.B.Succs[e.K]
+			if len(succ.Nodes) == 0 {
+				callerOK = false
+				continue
+			}
+			rs, isRet := succ.Nodes[0].(*ast.ReturnStmt)
+			if !isRet || len(rs.Results) != 1 || !c.isErrorValueCall(info, rs.Results[0], 0) {
+				callerOK = false
+			}
+		}
+		nonNil := fc.nilEdges(table, false)
+		if !callerOK || len(nonNil) == 0 || fc.reachableAvoiding(lc.Loc.B, nonNil) {
+			continue
+		}
+		// resolver half
+		hu := FuncUnit{h, hd, c.pkgOf[hd]}
+		hinfo := hu.Pkg.TypesInfo
+		hfc := c.cfgOf(hu, nil)
+		isEmptyCmp := func(a LitAtom, wantEmpty bool) bool {
+			be, ok := ast.Unparen(a.E).(*ast.BinaryExpr)
+			if !ok || (be.Op != token.EQL && be.Op != token.NEQ) {
+				return false
+			}
+			sv, ok := constStringVal(hinfo, be.Y)
+			if !ok || sv != "" {
+				return false
+			}
+			return ((be.Op == token.EQL) == a.Positive) == wantEmpty
+		}
+		hEmpty := hfc.edgesImplying(func(a LitAtom) bool { return isEmptyCmp(a, true) })
+		hNonEmpty := hfc.edgesImplying(func(a LitAtom) bool { return isEmptyCmp(a, false) })
+		if len(hEmpty) == 0 || len(hNonEmpty) == 0 {
+			continue
+		}
+		resolverOK := true
+		for _, e := range hEmpty {
+			succ := e.B.Succs[e.K]
+			if len(succ.Nodes) == 0 {
+				resolverOK = false
+				continue
+			}
+			rs, isRet := succ.Nodes[0].(*ast.ReturnStmt)
+			if !isRet || idx >= len(rs.Results) || !isNilIdent(hinfo, rs.Results[idx]) {
+				resolverOK = false
+			}
+		}
+		// named results assigned before a bare return are not followed
+		for _, b := range hfc.G.Blocks {
+			if !hfc.Live(b) {
+				continue
+			}
+			for _, nd := range b.Nodes {
+				rs, isRet := nd.(*ast.ReturnStmt)
+				if !isRet {
+					continue
+				}
+				if idx >= len(rs.Results) {
+					resolverOK = false
+					continue
+				}
+				r := ast.Unparen(rs.Results[idx])
+				if isNilIdent(hinfo, r) {
+					continue
+				}
+				// the current package: the unqualified path
+				if f := FieldOfSelector(hinfo, r); f != nil && f.Name() == "Package" {
+					continue
+				}
+				if hfc.reachableAvoiding(b, hNonEmpty) {
+					resolverOK = false
+				}
+			}
+		}
+		if resolverOK {
+			return true, lc.Call
+		}
+	}
+	return false, nil
 }
